@@ -282,6 +282,8 @@ func (n *InfluxQLNode) getCreateFn(kind reflect.Kind) (createReduceContextFunc, 
 	n.currentKind = kind
 	createFn, err := determineReduceContextCreateFn(n.n.Method, kind, n.n.ReduceCreater)
 	if err != nil {
+		// Do not leave the create function of the previous kind cached under the new kind.
+		n.createFn = nil
 		return nil, errors.Wrapf(err, "invalid influxql func %s with field %s", n.n.Method, n.n.Field)
 	}
 	n.createFn = createFn
